@@ -66,6 +66,7 @@ EncodeVerdict(e, raw) ==
       s == AbsOf(e, ObservedAdj(b))
       x == SectionOf(s) IN
   IF Len(e.order) # Len(e.g.descs) + Len(e.foreign) THEN "harness-bad-order"
+  ELSE IF \E i \in 1..Len(e.g.descs) : ~e.g.descs[i].backref THEN "descriptor-does-not-refer-to-the-signal-that-carries-it"
   ELSE IF e.data_before # raw THEN "data-changed-without-encoding"
   ELSE IF ~Representable(s) THEN ""      \* the value has no encoding (a length exceeds its field): nothing to compare
   ELSE IF b # x THEN "not-canonical-" \o Where(b, x, s)
